@@ -42,14 +42,24 @@ package container
 //@   assumes result1 == nil ==> (forall k cid.Cid :: has(result0, k) == cborHas(content(r), k))
 //@   ensures [C17] allornothing: result1 != nil ==> result0 == nil
 //@   ensures [C17] nonnil: result1 == nil ==> result0 != nil
+//@   ensures [C17,C08] labelled: result1 == nil ==> labelled(result0)
+//@   loop 0: invariant labelled(ctn)
 //@   loop 0: invariant it2 != nil && litNode(it2) == tokensNode && 0 <= litPos(it2) && ctn != nil && fresh(ctn) && nodeKind(tokensNode) == datamodel.Kind_List
 //@           invariant forall i int :: {listElem(tokensNode, i)} 0 <= i && i < litPos(it2) && i < listLen(tokensNode) ==> has(ctn, ucanCid(nodeBytes(listElem(tokensNode, i))))
 //@           decreases listLen(tokensNode) - litPos(it2)
+//@ // every entry sits under the CID of some byte string that the verifying decoder accepted as that token
+//@ pure func labelled(ctn Reader) bool =
+//@     forall k cid.Cid :: {has(ctn, k)} has(ctn, k) ==> (exists data string :: {ucanCid(data)} k == ucanCid(data) && genericVerified(decodeWith(dagcbor.Decode, data), ctn[k]))
+//@ // the CAR reader: a range-over-func loop over the block iterator (any blocks, in any number); every block goes through addToken
 //@ func FromCarReader
-//@   trusted
-//@   requires r != nil
-//@   ensures result1 == carErr(content(r))
-//@   ensures result1 == nil ==> result0 != nil && (forall k cid.Cid :: has(result0, k) == carHas(content(r), k))
+//@   requires r != nil && modelsWF()
+//@   use node_sizes, node_map_children
+//@   assumes result1 == carErr(content(r))
+//@   assumes result1 == nil ==> (forall k cid.Cid :: has(result0, k) == carHas(content(r), k))
+//@   ensures [C17] allornothing: result1 != nil ==> result0 == nil
+//@   ensures [C17] nonnil: result1 == nil ==> result0 != nil
+//@   ensures [C17,C08] labelled: result1 == nil ==> labelled(result0)
+//@   loop 0: invariant ctn != nil && fresh(ctn) && labelled(ctn)
 //@ func FromCbor
 //@   requires modelsWF()
 //@   ensures [C17,C18] same: result1 == cborErr(bytes(data)) && (result1 == nil ==> (forall k cid.Cid :: has(result0, k) == cborHas(bytes(data), k)))
@@ -78,10 +88,42 @@ package container
 //@   requires la != nil
 //@   loop 0: invariant true
 //@ func (Writer).ToCarWriter
-//@   trusted
 //@   requires w != nil
-//@   ensures result == nil ==> wfailed(w) == old(wfailed(w))
+//@   ensures [C18] fault: result == nil ==> wfailed(w) == old(wfailed(w))
 //@   assigns written(w), wfailed(w)
+//@ // the block iterator handed to writeCar: one yield per entry
+//@ func (Writer).ToCarWriter$1
+//@   requires yield != nil
+//@   ensures [C09] total: true
+//@   loop 0: invariant true
+//@ func writeCar
+//@   requires w != nil
+//@   ensures [C18] fault: result == nil ==> wfailed(w) == old(wfailed(w))
+//@   assigns written(w), wfailed(w)
+//@   loop 0: invariant wfailed(w) == old(wfailed(w))
+//@ func (*carHeader).Write
+//@   requires ch != nil
+//@   assigns nothing
+//@ func (*carHeader).Write$1
+//@   requires ma != nil
+//@ func (*carHeader).Write$1$1
+//@   requires la != nil
+//@   loop 0: invariant 0 <= k && k <= len(ch.Roots)
+//@ // the block iterator returned by readCar: stops at a clean EOF, hands every other outcome of readBlock to the consumer
+//@ func readCar$1
+//@   requires yield != nil && br != nil
+//@   ensures [C09] total: true
+//@   assigns br, rdState(box(br)), delivered(box(br)), failed(box(br))
+//@   loop 0: invariant true
+//@ func readCar
+//@   requires r != nil
+//@   ensures [C17,C18] ok: err == nil ==> blocks != nil
+//@   assigns delivered(r), failed(r)
+//@ func readHeader
+//@   ensures [C09] shape: result1 == nil ==> result0 != nil
+//@   use node_sizes, node_list_children
+//@   loop 0: invariant it != nil && 0 <= litPos(it) && nodeKind(litNode(it)) == datamodel.Kind_List && fresh(header)
+//@           decreases listLen(litNode(it)) - litPos(it)
 //@ func (Writer).ToCborBase64Writer
 //@   requires w != nil
 //@   ensures [C18] flushed: result == nil ==> isClosed(encoderFor(w)) && closedWith(encoderFor(w)) == nil
@@ -98,7 +140,7 @@ package container
 //@   ensures [C18] eof: result1 == nil ==> result0 != nil
 //@   ensures [C18] nofault: result1 == nil ==> failed(box(r)) == old(failed(box(r)))
 //@   // a clean io.EOF is reported only at a section boundary: nothing of a section has been consumed
-//@   ensures [C18] cleaneof: result1 == io.EOF ==> delivered(box(r)) == old(delivered(box(r)))
+//@   ensures [C17,C18] cleaneof: result1 == io.EOF ==> delivered(box(r)) == old(delivered(box(r)))
 //@   assigns r, rdState(box(r)), delivered(box(r)), failed(box(r))
 //@ func ldWrite
 //@   requires w != nil
@@ -112,5 +154,5 @@ package container
 //@   requires r != nil
 //@   ensures [C17] integrity: result1 == nil ==> (exists p cid.Prefix :: result0.c == cidOfData(p, bytes(result0.data)))
 //@   ensures [C18] nofault: result1 == nil ==> failed(box(r)) == old(failed(box(r)))
-//@   ensures [C18] cleaneof: result1 == io.EOF ==> delivered(box(r)) == old(delivered(box(r)))
+//@   ensures [C17,C18] cleaneof: result1 == io.EOF ==> delivered(box(r)) == old(delivered(box(r)))
 //@   assigns r, rdState(box(r)), delivered(box(r)), failed(box(r))
